@@ -1,6 +1,7 @@
 //! Correspondence harness: runs the real ndarray-stats routines on case lines
 //! read from stdin and prints one canonical result line per case.
 mod common;
+mod r_c20;
 mod r_hist;
 mod r_minmax;
 mod r_nan;
@@ -32,6 +33,7 @@ fn dispatch(routine: &str, t: &mut Toks) -> String {
         | "l2_dist" | "mean_abs_err" | "mean_sq_err" | "root_mean_sq_err"
         | "peak_signal_to_noise_ratio" | "libm" => r_num::run(routine, t),
         "strategy" | "gridb" => r_strat::run(routine, t),
+        "layoutinv" => r_c20::run(routine, t),
         "profile" => {
             if cfg!(debug_assertions) {
                 "OK debug".to_string()
